@@ -115,6 +115,31 @@ pub fn run(ctx: &Ctx) -> Report {
     let n = jobs.len() / 2;
     let st = explore(&ctx.pool, jobs, j);
     rep.part("collisions at every position x kind", st, serde_json::json!({"scenarios": n, "d": d}));
+    // -n combined with every other option: none of them may switch the protection off
+    {
+        let flags: Vec<Vec<&str>> = vec![vec!["--backup", "numbered"], vec!["--backup", "auto"], vec!["--no-perms"], vec!["--no-timestamps"], vec!["--ownership"], vec!["--fsync"], vec!["--reflink", "never"], vec!["--reflink", "always"], vec!["--no-progress"], vec!["--block-size", "0"], vec!["--block-size", "1"], vec!["--gitignore"], vec!["-L"], vec!["-w", "1"], vec!["-w", "0"], vec!["-vv"], vec!["-T"], vec!["-g"]];
+        let mut sc = vec![];
+        for d in drivers() {
+            for f in &flags {
+                let mut tree = src_tree();
+                tree.push(Entry::dir("dst"));
+                tree.push(Entry::file("dst/bystander", "keep me").mtime(1_200_000_000, 5).mode(0o600));
+                tree.push(Entry::file("dst/f2", "EXISTING").mtime(1_200_000_002, 7).mode(0o604));
+                tree.push(Entry::file("dst/f2.~1~", "a backup that must stay").mtime(1_100_000_000, 1));
+                let mut args: Vec<&str> = vec!["-r", "-n", "--driver", d];
+                args.extend(f.iter());
+                if f == &vec!["-T"] {
+                    // -T: a single source onto the existing file itself
+                    args.extend_from_slice(&["src/f2", "dst/f2"]);
+                } else {
+                    args.extend_from_slice(&["src/f1", "src/f2", "src/d", "dst"]);
+                }
+                sc.push(Scenario::new(&format!("noclobber-with-[{}]-{}", f.join(" "), d), tree, &args));
+            }
+        }
+        let st = scen_batch(ctx, sc, &[Policy::P0, Policy::P1], j);
+        rep.part("-n combined with every other option", st, serde_json::json!({"options": flags.len()}));
+    }
     // the existence probe itself may fail: an error must not be read as "absent"
     {
         let w = Worker::new(46, &ctx.pool.bins);
